@@ -72,6 +72,9 @@ Accept(e) ==
          /\ REq(RDy(e.not), RSub(One, a))
          /\ All01(<<e.equ>>) /\ e.equ = e.equ_swapped /\ DLe(e.equ, e.equ_next_a)     \* in range, commutative, monotone
          /\ ((e.a = 0 \/ e.b = 0) => e.equ = DZero) /\ ((e.a = 8 /\ e.b = 8) => e.equ = DOne)
+         \* weighted form: the algebraic product at weight 0, the algebraic sum at weight 1, non-decreasing in the weight
+         /\ NearTol(e.equg[1], Opr(2, a, b)) /\ NearTol(e.equg[2], Opr(5, a, b))
+         /\ All01(e.equg_mid) /\ NonDecr(e.equg_mid, 1, 5)
     [] e.f = "sweep" ->
          /\ e.disp = e.ys
          /\ (e.kind \in {"gauss", "gauss2", "gbell", "sig", "psig", "dsig"} => All01(e.ys))
